@@ -22,8 +22,8 @@ package diodes
 //@   ensures ncalls(atomic.SwapPointer) == old(ncalls(atomic.SwapPointer)) + 1
 //@   ensures !ok ==> d.readIndex == old(d.readIndex) && ncalls(Alerter.Alert) == old(ncalls(Alerter.Alert)) && data == nil
 //@   ensures ok ==> callres(atomic.SwapPointer, old(ncalls(atomic.SwapPointer)), 0) != nil && cast(callres(atomic.SwapPointer, old(ncalls(atomic.SwapPointer)), 0), "*bucket").seq >= old(d.readIndex) && d.readIndex == cast(callres(atomic.SwapPointer, old(ncalls(atomic.SwapPointer)), 0), "*bucket").seq + 1 && data == cast(callres(atomic.SwapPointer, old(ncalls(atomic.SwapPointer)), 0), "*bucket").data
-//@   ensures [C10] ok && cast(callres(atomic.SwapPointer, old(ncalls(atomic.SwapPointer)), 0), "*bucket").seq > old(d.readIndex) ==> ncalls(Alerter.Alert) == old(ncalls(Alerter.Alert)) + 1 && callarg(Alerter.Alert, old(ncalls(Alerter.Alert)), 0) == d.alerter && callarg(Alerter.Alert, old(ncalls(Alerter.Alert)), 1) == int(cast(callres(atomic.SwapPointer, old(ncalls(atomic.SwapPointer)), 0), "*bucket").seq - old(d.readIndex))
-//@   ensures [C10] ok && cast(callres(atomic.SwapPointer, old(ncalls(atomic.SwapPointer)), 0), "*bucket").seq == old(d.readIndex) ==> ncalls(Alerter.Alert) == old(ncalls(Alerter.Alert))
+//@   ensures [C10,C11] ok && cast(callres(atomic.SwapPointer, old(ncalls(atomic.SwapPointer)), 0), "*bucket").seq > old(d.readIndex) ==> ncalls(Alerter.Alert) == old(ncalls(Alerter.Alert)) + 1 && callarg(Alerter.Alert, old(ncalls(Alerter.Alert)), 0) == d.alerter && callarg(Alerter.Alert, old(ncalls(Alerter.Alert)), 1) == int(cast(callres(atomic.SwapPointer, old(ncalls(atomic.SwapPointer)), 0), "*bucket").seq - old(d.readIndex))
+//@   ensures [C10,C11] ok && cast(callres(atomic.SwapPointer, old(ncalls(atomic.SwapPointer)), 0), "*bucket").seq == old(d.readIndex) ==> ncalls(Alerter.Alert) == old(ncalls(Alerter.Alert))
 //@   ensures [C11] ok ==> d.readIndex - old(d.readIndex) == 1 + (cast(callres(atomic.SwapPointer, old(ncalls(atomic.SwapPointer)), 0), "*bucket").seq - old(d.readIndex))
 
 //@ func (*ManyToOne).Set(d, data)
@@ -51,18 +51,22 @@ package diodes
 //@ func (*Poller).Next(p) res
 //@   props C11
 //@   arith int
+//@   flag replay diode_drain
 //@   requires p != nil && p.Diode != nil
 //@   ensures ncalls(Diode.TryNext) > old(ncalls(Diode.TryNext))
 //@   ensures !callres(Diode.TryNext, ncalls(Diode.TryNext) - 1, 1) ==> res == nil && ncalls(Poller.isDone) > old(ncalls(Poller.isDone)) && callres(Poller.isDone, ncalls(Poller.isDone) - 1, 0)
 //@   ensures callres(Diode.TryNext, ncalls(Diode.TryNext) - 1, 1) ==> res == callres(Diode.TryNext, ncalls(Diode.TryNext) - 1, 0)
+//@   ensures !callres(Diode.TryNext, ncalls(Diode.TryNext) - 1, 1) ==> callseq(Diode.TryNext, ncalls(Diode.TryNext) - 1) > callseq(Poller.isDone, ncalls(Poller.isDone) - 1)
 
 //@ func (*Waiter).Next(w) res
 //@   props C11
 //@   arith int
+//@   flag replay diode_drain
 //@   requires w != nil && w.Diode != nil && w.c != nil && !held(w.mu)
 //@   ensures ncalls(Diode.TryNext) > old(ncalls(Diode.TryNext))
 //@   ensures !callres(Diode.TryNext, ncalls(Diode.TryNext) - 1, 1) ==> res == nil && ncalls(Waiter.isDone) > old(ncalls(Waiter.isDone)) && callres(Waiter.isDone, ncalls(Waiter.isDone) - 1, 0)
 //@   ensures callres(Diode.TryNext, ncalls(Diode.TryNext) - 1, 1) ==> res == callres(Diode.TryNext, ncalls(Diode.TryNext) - 1, 0)
+//@   ensures !callres(Diode.TryNext, ncalls(Diode.TryNext) - 1, 1) ==> callseq(Diode.TryNext, ncalls(Diode.TryNext) - 1) > callseq(Waiter.isDone, ncalls(Waiter.isDone) - 1)
 //@   ensures !held(w.mu)
 
 // Waiter.Set hands the datum to the ring and wakes the consumer without
